@@ -125,6 +125,23 @@ def r1_r2_selection(ctx: Ctx, d) -> None:
                   f'manual selection loop compares with >=: on equal specificity the later rule wins', lp)
     if len(sels) + len(manual) + len(positional) < 3:
         ctx.unknown('C09.R1', d.fi, f'{len(sels)} winner selections found in the most_specific branch (merchant, category, subcategory expected)')
+    # the winner of a field is chosen among the rules that provide that field: the merchant among rules with a merchant, the subcategory among
+    # rules with a subcategory (a winner taken from the wrong candidate list leaves the field empty although a matching rule sets it)
+    from . import c02 as _c02
+    for s, v, base in sels:
+        tg_ = s.targets[0]
+        tn_ = [tg_.id] if isinstance(tg_, ast.Name) else [e.id for e in getattr(tg_, 'elts', []) if isinstance(e, ast.Name) and e.id != '_']
+        fed_ = set()
+        for t_ in tn_:
+            fed_ |= _c02._fields_fed(d, s, t_)
+        conds_ = _c02.candidate_conds(d, s, base.args[0]) if base.args else None
+        if conds_ is None:
+            continue
+        for fld_ in sorted(fed_ & {'merchant', 'subcategory'}):
+            ok_ = any(f'has_{fld_}' in c_ or _c02._reads_attr(c_, fld_) for c_ in conds_)
+            ctx.check(ok_, 'C09.R1', d.fi, f'field-candidates:{fld_}', f'the {fld_} winner is chosen among rules that set a {fld_}',
+                      f'the {fld_} winner is chosen among {conds_}: the most specific of *those* need not set a {fld_}, so the {fld_} stays empty '
+                      f'although a matching rule provides one', s)
     for s, v, base in sels:
         fn = call_name(base)
         cand = base.args[0]
